@@ -61,13 +61,13 @@ CFG = {
              "dense<->sparse at 1-3 random points, and (35%) on an array-like plain object; after every op the result/error class "
              "and the full own-property dump (length, writable, extensible, every integer key's descriptor in ownKeys order) are "
              "compared with the model; non-trivial = at least 3 executed ops or a storage transition happened; distinct by hash"),
-    "theorem_names": ["define_refines_spec", "define_clean_partial", "define_stale_refuted", "sparse_reads_refine",
-                      "dense_reads_refine", "sparse_setlength_refines", "dense_setlength_refines",
-                      "sparse_delete_refines", "dense_delete_refines", "sparse_set_refines", "dense_set_refines",
-                      "sparse_define_refines", "dense_define_refines", "history_refines", "init_inv",
-                      "dense_delete_counters", "dense_set_counters", "dense_define_counters", "dense_setlength_pvc",
-                      "transition_invisible", "setlength_nonconfigurable_tail", "counters_truncate_refuted",
-                      "export_refuted", "pvc_undercount_refuted", "check_sort_sound", "check_sort_array_sound"],
+    "theorem_names": ["define_refines_spec", "define_clean", "sparse_reads_refine", "dense_reads_refine",
+                      "sparse_setlength_refines", "dense_setlength_refines", "sparse_delete_refines",
+                      "dense_delete_refines", "sparse_set_refines", "dense_set_refines", "sparse_define_refines",
+                      "dense_define_refines", "history_refines", "init_inv", "dense_delete_counters",
+                      "dense_setlength_counters", "dense_set_counters", "dense_define_counters",
+                      "sparse_delete_counters", "sparse_setlength_counters", "transition_invisible",
+                      "setlength_nonconfigurable_tail", "check_sort_sound", "check_sort_array_sound"],
     "allowed_axioms": [],
     "trusted_base": [
         "Coq 8.16.1 kernel + vm_compute (no native_compute); theorems closed under the global context (no axioms)",
@@ -90,10 +90,9 @@ CFG = {
                  "expand() transitions and _defineOwnProperty are transcribed as I (kept in step with the fix: commits). Proved "
                  "without axioms, for all states satisfying the storage invariant and all arguments: every operation of either "
                  "storage - reads, indexed write, define, delete, length assignment - returns S's result and denotes S's array, "
-                 "through every dense<->sparse switch, and preserves the invariant (26 theorems; history_refines lifts this to all "
+                 "through every dense<->sparse switch, and preserves the invariant (24 theorems, no side conditions left; history_refines lifts this to all "
                  "histories by induction); _defineOwnProperty equals ValidateAndApplyPropertyDescriptor for every well-formed "
-                 "descriptor; truncation stops at the greatest non-configurable index; the regions of the still-open findings are "
-                 "carved out by explicit hypotheses and each exhibited by a vm_compute witness; a verified validator check_sort "
+                 "descriptor; truncation stops at the greatest non-configurable index; the bookkeeping counters that gate the fast paths are exact; a verified validator check_sort "
                  "accepts only permutations that are sorted and stable whenever the recorded comparator is consistent. Every run "
                  "replays 1500 (quick) / 80000 (thorough) generated histories on a normal array, a twin forced through "
                  "dense<->sparse transitions (with the last real element as the last converted item, every filler read back) and "
